@@ -443,8 +443,10 @@ def case_gemmx_channels(case):
         ops = list(acc.lower_acc_launch(launch, aop))
         I = irsym.Interp(W=32)
         I.handlers.update(concrete_handlers(I))
-        I.set(lg.result, z3.BitVecVal(1, 32))
-        I.set(ls.result, z3.BitVecVal(1, 32))
+        # the two launch fields carry unrelated run-time values: each register must receive its own
+        lgv, lsv = z3.BitVec("launch_gemmx_value", 32), z3.BitVec("launch_streamer_value", 32)
+        I.set(lg.result, lgv)
+        I.set(ls.result, lsv)
         I.state["status_reads"] = 3  # the accelerator answers 'done' at the first poll
         for op in ops:
             I.run_op(op)
@@ -455,10 +457,15 @@ def case_gemmx_channels(case):
         for e in I.events:
             if e[0] != "write":
                 continue
-            a, v = val(e[1]), val(e[2])
+            a = val(e[1])
             if a == lmap["launch_streamer"]:
                 streamer_launches += 1
-            elif a == lmap["launch_gemmx"]:
+                E.oblige("channels:launch_register_receives_the_value_of_its_own_field", e[2] == lsv, dict(register="launch_streamer"))
+                continue
+            if a == lmap["launch_gemmx"]:
+                E.oblige("channels:launch_register_receives_the_value_of_its_own_field", e[2] == lgv, dict(register="launch_gemmx", group=group))
+            v = None if a == lmap["launch_gemmx"] else val(e[2])
+            if a == lmap["launch_gemmx"]:
                 info = dict(group=group, n=n, groups=groups)
                 exp_m = m_total // groups
                 E.oblige("channels:M_and_loop_bound_per_group", regs.get(fmap["M"]) == exp_m and regs.get(fmap["temporal_loop_bound"]) == exp_m,
